@@ -346,13 +346,18 @@ where
         let request_hash = response.request_type().hash();
 
         // check whether we are (still) waiting on response to this request
-        let Some(_) = self.outstanding_requests.remove(&request_hash) else {
+        // NOTE: The request only stops being outstanding once a response passed validation
+        // (or was a NACK). An invalid response from one peer must not cancel the request,
+        // otherwise the valid responses of other peers would be dropped as unsolicited
+        // and the request would never be retried.
+        if !self.outstanding_requests.contains_key(&request_hash) {
             warn!("received repair response for unknown request {response:?}");
             return;
-        };
+        }
 
         match response {
             RepairResponse::Nack(req_type) => {
+                self.outstanding_requests.remove(&request_hash);
                 debug!("received NACK for repair request {req_type:?}, retrying immediately");
                 if let Err(err) = self.send_request(req_type).await {
                     warn!("retrying NACKed repair request failed: {err}");
@@ -374,6 +379,7 @@ where
                     warn!("repair response (LastSliceRoot) with invalid proof");
                     return;
                 }
+                self.outstanding_requests.remove(&request_hash);
 
                 // store slice Merkle root
                 self.slice_roots
@@ -400,6 +406,7 @@ where
                     warn!("repair response (SliceRoot) with invalid proof");
                     return;
                 }
+                self.outstanding_requests.remove(&request_hash);
 
                 // store slice Merkle root
                 self.slice_roots.insert((block_id.clone(), slice), root);
@@ -441,6 +448,7 @@ where
                     warn!("repair response (Shred) with invalid Merkle proof or signature");
                     return;
                 };
+                self.outstanding_requests.remove(&request_hash);
 
                 // store shred
                 let res = self
